@@ -104,11 +104,11 @@ pub fn specs(tier: &str) -> Vec<ExpSpec> {
     let mut v = Vec::new();
     for ft in [FatType::Fat12, FatType::Fat16, FatType::Fat32] {
         let cfg = vol::tiny_with(ft, 8, 16);
-        v.push(ExpSpec::new(cfg.clone(), alphabet(512, true), if th { 4 } else { 3 }).with_prefix(prefix()));
+        v.push(ExpSpec::new(cfg.clone(), alphabet(512, true), if th { 5 } else { 3 }).with_prefix(prefix()));
         // single handle, deeper
         let mut c1 = cfg.clone();
         c1.name = format!("{}-1h", c1.name);
-        v.push(ExpSpec::new(c1, alphabet(512, false), if th { 5 } else { 4 }).with_prefix(prefix()));
+        v.push(ExpSpec::new(c1, alphabet(512, false), if th { 6 } else { 4 }).with_prefix(prefix()));
         // short-transferring device
         let mut c2 = cfg;
         c2.name = format!("{}-short", c2.name);
